@@ -229,9 +229,6 @@ func parseSMTValue(val string) (uint64, bool) {
 // Eval checks satisfiability of the current assertions plus assume and, if sat, returns the model's value of
 // every term (bit-vector and boolean terms only).
 func (s *Solver) Eval(assume *Term, terms []*Term) (map[*Term]uint64, bool) {
-	if r := s.CheckAssuming(assume); r != "sat" {
-		return nil, false
-	}
 	res := map[*Term]uint64{}
 	var ask []*Term
 	seen := map[*Term]bool{}
@@ -259,12 +256,17 @@ func (s *Solver) Eval(assume *Term, terms []*Term) (map[*Term]uint64, bool) {
 		}
 		ask = append(ask, t)
 	}
+	// everything asked for is defined before the check: a definition may carry assertions (hash tables), and an
+	// assertion after check-sat takes the model away
+	for _, t := range ask {
+		s.pr.Define(t)
+	}
+	if r := s.CheckAssuming(assume); r != "sat" {
+		return nil, false
+	}
 	const chunk = 400
 	for i := 0; i < len(ask); i += chunk {
 		part := ask[i:min(i+chunk, len(ask))]
-		for _, t := range part {
-			s.pr.Define(t)
-		}
 		s.buf.WriteString("(get-value (")
 		for _, t := range part {
 			s.buf.WriteString(s.pr.ref(t))
@@ -276,12 +278,14 @@ func (s *Solver) Eval(assume *Term, terms []*Term) (map[*Term]uint64, bool) {
 		vals := splitPairs(out)
 		if len(vals) != len(part) {
 			fmt.Fprintln(os.Stderr, "get-value: cannot parse", cut(out, 300))
+			s.NUnknown++ // a model that cannot be read is not a verdict: reported as inconclusive
 			return nil, false
 		}
 		for k, t := range part {
 			u, ok := parseSMTValue(vals[k])
 			if !ok {
 				fmt.Fprintln(os.Stderr, "get-value: cannot parse value", vals[k])
+				s.NUnknown++
 				return nil, false
 			}
 			res[t] = u
